@@ -202,6 +202,11 @@ def _box(ra):
     return out
 
 
+def _as_set(box):
+    """a box as the constraints it puts on points: rows that bound nothing (-inf, +inf) do not count"""
+    return {f: (int(b[0]), int(b[1])) for f, b in enumerate(box) if (int(b[0]), int(b[1])) != (NEG, POS)}
+
+
 def observe_tree(model, nfeat, qpoints2):
     """qpoints2: query points in doubled integer coordinates."""
     from mlinsights.mltree import tree_leave_index, tree_node_range, predict_leaves
@@ -285,7 +290,7 @@ def treebox_part(ctx, thorough):
         for o, w in zip(obs["ranges"], case["ranges"]):
             if o["raised"]:
                 ctx.violation("BoxDefined", TSITE + ".tree_node_range", sig, o.get("err"), case=case)
-            elif o["leaf"] != w["leaf"] or o["box"] != [list(b) for b in w["box"]]:
+            elif o["leaf"] != w["leaf"] or _as_set(o["box"]) != _as_set(w["box"]):
                 ctx.violation("NodeRangeIsPathBox", TSITE + ".tree_node_range", sig, dict(got=o, want=w), case=case)
         for o, w in zip(obs["queries"], case["pts"]):
             if o["apply"] != w["leaf"]:
